@@ -5,7 +5,7 @@ calc-fisher-matrix-total-size, qmpt-mse-linear-analytical-qoperation (owner C19)
 calc-fisher-matrix-mixed-outcome-counts (owner C08).  On a tree without one of them the defect is reported again.
 
 Translator tie (regen_model): gen/c19_py2coq.py regenerates the loop / index / guard / dispatch skeletons of the anchored functions from
-the current source on every run; coq/gen/C19_Equiv.v proves them equal to the hand-written model (27 theorems, counted as obligations).
+the current source on every run; coq/gen/C19_Equiv.v proves them equal to the hand-written model (30 theorems, counted as obligations).
 
 Sub-checks
   helpers      matrix_util / data_analysis helper functions vs the extracted model (+ error branches)
@@ -893,7 +893,7 @@ def gen_tomo(ctx, per_setup, setups):
 
 def sub_tomo(ctx):
     setups = SETUPS_QUICK if ctx.quick else SETUPS_QUICK + SETUPS_MORE
-    cases = gen_tomo(ctx, ctx.n(3, 14), setups)
+    cases = gen_tomo(ctx, ctx.n(2, 14), setups)
     ctx.sample("tomo", cases[0])
     ctx.run_cases("tomo", chk_tomo, cases)
 
